@@ -430,7 +430,10 @@ impl PacketReceiver {
     // comes first. Any incomplete or dropped packets are skipped, and as a result, the sender must
     // ensure that all reliable packets have been received in full prior to issuing the request.
     pub fn resynchronize(&mut self, sender_next_id: u32) {
-        debug_assert!(packet_id::is_valid(sender_next_id));
+        if !packet_id::is_valid(sender_next_id) {
+            // The sync frame carries a full 32-bit field; anything beyond 20 bits is not a packet ID
+            return;
+        }
 
         let base_id = self.base_id;
         let sender_delta = packet_id::sub(sender_next_id, base_id);
